@@ -77,6 +77,8 @@ impl<T> KanalPtr<T> {
     /// Reads data based on movement protocol of KanalPtr based on size of T
     #[inline(always)]
     pub(crate) unsafe fn read(&self) -> T {
+        #[cfg(kanal_verif)]
+        crate::verif::note(2, self as *const Self as u64);
         if size_of::<T>() == 0 {
             zeroed()
         } else if size_of::<T>() > size_of::<*mut T>() {
@@ -88,6 +90,8 @@ impl<T> KanalPtr<T> {
     /// Writes data based on movement protocol of KanalPtr based on size of T
     #[inline(always)]
     pub(crate) unsafe fn write(&self, d: T) {
+        #[cfg(kanal_verif)]
+        crate::verif::note(1, self as *const Self as u64);
         if size_of::<T>() > size_of::<*mut T>() {
             ptr::write((*self.0.get()).assume_init(), d);
         } else {
@@ -101,6 +105,8 @@ impl<T> KanalPtr<T> {
     #[inline(always)]
     #[allow(unused)]
     pub(crate) unsafe fn copy(&self, d: *const T) {
+        #[cfg(kanal_verif)]
+        crate::verif::note(1, self as *const Self as u64);
         if size_of::<T>() > size_of::<*mut T>() {
             // Data can't be stored as pointer value, move it to pointer
             // location
